@@ -79,8 +79,10 @@ RejectReason(e, home, marker) == IF e.calls \/ (marker = "Value" /\ e.iface) THE
 ValProg(e, home, marker, d) ==
   [Prog("E/d" \o ToString(d) \o "/" \o home \o "/" \o marker \o "/" \o e.go, "E", <<>>, <<>>, <<>>, <<>>) EXCEPT !.fam = "E"]
   @@ [value |-> [e |-> e, home |-> home, marker |-> marker]]
+\* home "bs": another package that has the SAME PACKAGE NAME as the injector's package (imported under an alias)
 FamilyE(p, depth) ==
-  \E home \in {"a", "b"} :
+  \/ \E e \in Atoms : p = ValProg(e, "bs", "Value", 1)
+  \/ \E home \in {"a", "b"} :
     \/ \E e \in Atoms : p = ValProg(e, home, "Value", 1)
     \/ depth >= 2 /\ \E e \in Depth2 : p = ValProg(e, home, "Value", 2)
     \/ depth >= 3 /\ \E e \in Depth3 : p = ValProg(e, home, "Value", 3)
